@@ -22,6 +22,10 @@ def main():
     meta = json.load(open(os.path.join(src, "meta.json")))
     crate_dir = meta.get("crate_dir", "integer")
     pkg = {"integer": "dashu-int", "float": "dashu-float", "rational": "dashu-ratio", "base": "dashu-base", "macros": "dashu-macros", ".": "dashu"}.get(crate_dir, "dashu-int")
+    # a change that only shows in one build configuration names it in meta.json ("needs_config")
+    nc = str(meta.get("needs_config", ""))
+    extra = (" --release" if "--release" in nc else "") + (" --no-default-features" if "--no-default-features" in nc else "")
+    rf = 'RUSTFLAGS=\'--cfg force_bits="32"\' ' if 'force_bits="32"' in nc else ""
     name = os.path.basename(dst.rstrip("/"))
     wt = "/tmp/wt_confirm_%s" % name
     sh("git -C /repo worktree remove --force %s; git -C /repo branch -D wt_confirm_%s" % (wt, name))
@@ -32,7 +36,7 @@ def main():
         os.makedirs(os.path.dirname(demo_dst), exist_ok=True)
         # without the change: demo passes
         shutil.copy(os.path.join(src, "demo.rs"), demo_dst)
-        r = sh("cargo test --offline -p %s --test seed_demo" % pkg, cwd=wt)
+        r = sh("%scargo test --offline -p %s --test seed_demo%s" % (rf, pkg, extra), cwd=wt)
         conf["demo_passes_without_change"] = r.returncode == 0
         os.remove(demo_dst)
         r = sh("git apply %s" % os.path.join(os.path.abspath(src), "patch.diff"), cwd=wt)
@@ -44,7 +48,7 @@ def main():
             conf["suite_passes_with_change"] = ("FAILED" not in lines) and ("error" not in lines) and failed == 0 and "test result" in lines
             conf["suite_summary"] = lines[-600:]
             shutil.copy(os.path.join(src, "demo.rs"), demo_dst)
-            r = sh("cargo test --offline -p %s --test seed_demo" % pkg, cwd=wt)
+            r = sh("%scargo test --offline -p %s --test seed_demo%s" % (rf, pkg, extra), cwd=wt)
             conf["demo_fails_with_change"] = r.returncode != 0 and ("test result: FAILED" in r.stdout or "panicked" in r.stdout + r.stderr)
     finally:
         sh("git -C /repo worktree remove --force %s; git -C /repo branch -D wt_confirm_%s" % (wt, name))
